@@ -149,6 +149,16 @@ check("C19", level="model_checking", engine="nx",
       note=NX_NOTE + " Directories created by a dry run's MakeDirs are recorded but not judged (DESIGN.md 5/C19).",
       design_ref="5/C19")
 
+check("C17", level="model_checking", engine="nx",
+      technique="exhaustive enumeration of small graphs x targets (scan) and schedule DFS for mid-build dyndep cases on the real scanner/planner; reference cycle search on the effective graph",
+      text="Every 3-statement manifest with <= 1 input per statement (quick; <= 2 inputs over explicit+validation in "
+           "thorough) over 4 input kinds x every single target and the default, plus templates for every way a cycle can "
+           "be closed (manifest, depfile, deps log gcc/msvc, dyndep inputs and outputs present at start or produced "
+           "mid-build under every schedule, phony, multi-output, validations): cyclic => a 'dependency cycle' error that "
+           "spells a real cycle, no command of it starts, exit != 0; acyclic => never rejected; never a hang.",
+      note=NX_NOTE + " The reference graph contains discovered dependencies only when ninja could load them (existing depfile, "
+           "valid deps record) and dyndep-supplied outputs only once the bound statement is reachable.", design_ref="5/C17")
+
 ALL = ["C%02d" % i for i in range(1, 21)]
 
 
